@@ -466,6 +466,13 @@ where
         .ok_or(ParseError::MissingReferenceSequenceName)
 }
 
+/// Parses a coordinate. `lexical` 6.1 does not detect every overflow (a 20-digit value may come back
+/// wrapped modulo 2^64), so a value is accepted only if the standard library parser agrees with it.
+fn parse_position(s: &str) -> Result<u64, lexical::Error> {
+    let n: u64 = lexical::parse(s)?;
+    if s.parse::<u64>() == Ok(n) { Ok(n) } else { Err(lexical::Error::Overflow(s.len())) }
+}
+
 fn parse_start<'a, I>(fields: &mut I) -> Result<u64, ParseError>
 where
     I: Iterator<Item = &'a str>,
@@ -473,7 +480,7 @@ where
     fields
         .next()
         .ok_or(ParseError::MissingStartPosition)
-        .and_then(|s| lexical::parse(s).map_err(ParseError::InvalidStartPosition))
+        .and_then(|s| parse_position(s).map_err(ParseError::InvalidStartPosition))
 }
 
 fn parse_end<'a, I>(fields: &mut I) -> Result<u64, ParseError>
@@ -483,7 +490,7 @@ where
     fields
         .next()
         .ok_or(ParseError::MissingEndPosition)
-        .and_then(|s| lexical::parse(s).map_err(ParseError::InvalidEndPosition))
+        .and_then(|s| parse_position(s).map_err(ParseError::InvalidEndPosition))
 }
 
 fn parse_name<'a, I>(fields: &mut I) -> Result<Option<String>, ParseError>
